@@ -354,13 +354,6 @@ TypeOK == life \in {"Start", "Diags", "Done"} /\ ndiags \in Nat
 Dev_ParamSpecSubstitution(f, d) ==
     /\ d.code = "internal_error" /\ f.kind = "paramspec_alias"
     /\ d.exck = "AssertionError" /\ d.site = "signature.py:substitute_typevars"
-\* value.py:1208-1212 SequenceValue.make_or_known and name_check_visitor.py:3272-3275 visit_Dict build a set / look a key
-\* up in a dict of the known objects and catch TypeError only: a display `{X}` / `{X: 1}` of a known object whose
-\* __hash__ raises anything else (directly or through a tuple / NamedTuple / frozen dataclass holding it) crashes.
-\* (the same mechanism as the repaired known-value-hash-exception-propagates, at two further sites)
-HashDisplayExc == "Internal error: RuntimeError('__hash__ raises')"
-Dev_HashExceptionInDisplay(c, d) ==
-    /\ d.code = "internal_error" /\ d.exc = HashDisplayExc
-    /\ d.site \in {"value.py:make_or_known", "name_check_visitor.py:visit_Dict"}
-    /\ c.v \in {"hash_runtimeerror", "tup_hashraises"}
+\* (hash-exception-in-literal-display -- SequenceValue.make_or_known / visit_Dict catching TypeError only -- is repaired by
+\* b889ca7: required behaviour now; the declaration values hash_runtimeerror / tup_hashraises keep generating the input)
 =============================================================================
